@@ -1,5 +1,5 @@
 (** * C02: proofs about the track initialisation model *)
-From Coq Require Import List Arith Bool PeanoNat Lia.
+From Coq Require Import List Arith Bool PeanoNat Lia Permutation.
 From Celer Require Import C02.TrackInit.
 Import ListNotations.
 
@@ -55,3 +55,345 @@ Qed.
 Lemma counters_exact : forall cfg ops s,
   exec cfg (init_state cfg) ops = Some s -> InvA cfg s.
 Proof. intros cfg ops s H. eapply InvA_exec; [apply InvA_init|exact H]. Qed.
+
+(** ** The identity invariant holds in every reachable state *)
+From Celer Require Import C02.InvB.
+
+Lemma extend_sec_err_failed : forall cfg s s', extend_from_secondaries cfg s = Err s' -> ph s' = Failed.
+Proof.
+  intros cfg s s' H. unfold extend_from_secondaries in H.
+  destruct (negb _); [discriminate|].
+  destruct (exclusive_scan _ _) as [scan total].
+  destruct (capacity cfg <? _); [inversion H; reflexivity|].
+  destruct (proc_all _ _ _ _ _ _ _ _); discriminate.
+Qed.
+
+Lemma Inv_step : forall cfg s o, InvA cfg s -> InvB cfg s ->
+  match step cfg s o with Ok s' => InvB cfg s' | Err s' => InvB cfg s' | Misuse => True end.
+Proof.
+  intros cfg s o HA HB. unfold step.
+  destruct o as [ps| | |f| | |].
+  - destruct (phase_eqb (ph s) Failed); [exact I|].
+    destruct (insert_primaries cfg s ps) as [s'|s'|] eqn:H; [|apply insert_err_state in H; subst|exact I].
+    + eapply InvB_insert_ok; eauto.
+    + apply InvB_of_failed. reflexivity.
+  - destruct (phase_eqb (ph s) Failed); [exact I|].
+    destruct (extend_from_primaries cfg s) as [s'|s'|] eqn:H; [eapply InvB_extend_prim; eauto| |exact I].
+    unfold extend_from_primaries in H. destruct (negb _); discriminate.
+  - destruct (phase_eqb (ph s) Failed); [exact I|].
+    destruct (initialize_tracks cfg s) as [s'|s'|] eqn:H; [eapply InvB_initialize; eauto| |exact I].
+    unfold initialize_tracks in H. destruct (negb _); [discriminate|]. destruct (_ =? 0); discriminate.
+  - destruct (phase_eqb (ph s) Failed); [exact I|].
+    destruct (physics_outcome cfg s f) as [s'|s'|] eqn:H; [eapply InvB_physics; eauto| |exact I].
+    unfold physics_outcome in H. destruct (negb _); discriminate.
+  - destruct (phase_eqb (ph s) Failed); [exact I|].
+    destruct (extend_from_secondaries cfg s) as [s'|s'|] eqn:H; [| |exact I].
+    + eapply InvB_extend_sec; eauto.
+    + apply InvB_of_failed. eapply extend_sec_err_failed; eauto.
+  - destruct (reset cfg s) as [s'|s'|] eqn:H; [apply (InvB_reset cfg s s' H)| |exact I].
+    unfold reset in H. discriminate.
+  - destruct (phase_eqb (ph s) Failed); [exact I|].
+    destruct (reseed cfg s) as [s'|s'|] eqn:H; [eapply InvB_reseed; eauto| |exact I].
+    unfold reseed in H. destruct (negb _); [discriminate|]. destruct (negb _); discriminate.
+Qed.
+
+Lemma Inv_exec : forall cfg ops s s', InvA cfg s -> InvB cfg s -> exec cfg s ops = Some s' ->
+  InvA cfg s' /\ InvB cfg s'.
+Proof.
+  induction ops as [|o r IH]; intros s s' HA HB H; cbn in H; [inversion H; subst; auto|].
+  pose proof (InvA_step cfg s o HA) as Hs. pose proof (Inv_step cfg s o HA HB) as Hb.
+  destruct (step cfg s o) as [s1|s1|]; [| |discriminate]; cbn in H; eapply IH; eauto.
+Qed.
+
+Lemma reachable_inv : forall cfg ops s,
+  exec cfg (init_state cfg) ops = Some s -> InvA cfg s /\ InvB cfg s.
+Proof. intros cfg ops s H. eapply Inv_exec; [apply InvA_init|apply InvB_init|exact H]. Qed.
+
+(** ** Theorems in their final form (restated in Properties_C02.v) *)
+
+Lemma counters_vacancies_exact : forall cfg ops s,
+  exec cfg (init_state cfg) ops = Some s -> ph s <> Failed ->
+  length (slots s) = n_slots cfg /\
+  c_init (cnt s) = length (stack s) /\ length (stack s) <= capacity cfg /\
+  c_vac (cnt s) = n_inactive (slots s) /\
+  (ph s = Ready -> vac s = inactive_from 0 (slots s) /\ length (vac s) = c_vac (cnt s) /\
+                   c_alive (cnt s) = n_slots cfg - n_inactive (slots s)) /\
+  (ph s = Inited \/ ph s = Interacted -> c_active (cnt s) = n_slots cfg - n_inactive (slots s)).
+Proof.
+  intros cfg ops s H Hph. destruct (counters_exact cfg ops s H) as ((Hl & _ & _) & Hlive & Hready & Hstep).
+  destruct (Hlive Hph) as (A & B & C & D).
+  split; [exact Hl|]. split; [exact A|]. split; [exact B|]. split; [exact C|]. split.
+  - intros Hr. destruct (Hready Hr) as [E F]. split; [exact E|]. split; [|exact F].
+    rewrite E, inactive_from_length. symmetry. exact C.
+  - exact Hstep.
+Qed.
+
+(** the per-step counters *)
+Lemma step_counters : forall cfg ops s,
+  exec cfg (init_state cfg) ops = Some s ->
+  (forall ps s', insert_primaries cfg s ps = Ok s' ->
+     c_gen (cnt s') = c_gen (cnt s) + length ps /\ length (stack s') = length (stack s) + length ps) /\
+  (forall s', extend_from_secondaries cfg s = Ok s' ->
+     c_sec (cnt s') + length (stack s) = length (stack s') /\
+     c_alive (cnt s') = n_slots cfg - length (vac s') /\ c_vac (cnt s') = length (vac s')) /\
+  (forall s', initialize_tracks cfg s = Ok s' ->
+     length (stack s) - length (stack s') = Nat.min (c_vac (cnt s)) (c_init (cnt s)) /\
+     c_active (cnt s') = n_slots cfg - c_vac (cnt s')).
+Proof.
+  intros cfg ops s H. pose proof (counters_exact cfg ops s H) as HA. split; [|split].
+  - intros ps s' Hi. destruct (insert_primaries_stack cfg s ps s' HA Hi) as (E1 & E2 & E3 & _ & _).
+    split.
+    + unfold insert_primaries in Hi. destruct (negb _); [discriminate|]. destruct (negb _); [discriminate|].
+      destruct (capacity cfg <? _); [discriminate|]. destruct (process_primaries _ _ _ _).
+      inversion Hi; subst s'. reflexivity.
+    + rewrite E2, app_length, issue_primaries_length. reflexivity.
+  - intros s' He.
+    pose proof (InvA_extend_sec cfg s s' HA (or_introl He)) as ((_ & _ & _) & Hlive' & Hready' & _).
+    assert (Hph' : ph s' = Ready).
+    { unfold extend_from_secondaries in He. destruct (negb _); [discriminate|].
+      destruct (exclusive_scan _ _). destruct (capacity cfg <? _); [discriminate|].
+      destruct (proc_all _ _ _ _ _ _ _ _). inversion He; reflexivity. }
+    destruct (Hlive' ltac:(rewrite Hph'; discriminate)) as (A' & _ & C' & _).
+    destruct (Hready' Hph') as [E' F'].
+    destruct HA as (_ & Hlive & _).
+    assert (Hph : ph s = Interacted).
+    { unfold extend_from_secondaries in He. destruct (phase_eqb (ph s) Interacted) eqn:E; [apply phase_eqb_eq; exact E|discriminate]. }
+    destruct (Hlive ltac:(rewrite Hph; discriminate)) as (A & _).
+    assert (Hsec : c_init (cnt s') = c_init (cnt s) + c_sec (cnt s')).
+    { unfold extend_from_secondaries in He. destruct (negb _); [discriminate|].
+      destruct (exclusive_scan _ _). destruct (capacity cfg <? _); [discriminate|].
+      destruct (proc_all _ _ _ _ _ _ _ _). inversion He; reflexivity. }
+    rewrite E', inactive_from_length. repeat split; lia.
+  - intros s' Hi.
+    assert (Hph : ph s = Ready).
+    { unfold initialize_tracks in Hi. destruct (phase_eqb (ph s) Ready) eqn:E; [apply phase_eqb_eq; exact E|discriminate]. }
+    destruct HA as (_ & Hlive & _). destruct (Hlive ltac:(rewrite Hph; discriminate)) as (A & _).
+    unfold initialize_tracks in Hi. destruct (negb _); [discriminate|].
+    destruct (Nat.min (c_vac (cnt s)) (c_init (cnt s)) =? 0) eqn:Hz.
+    + apply Nat.eqb_eq in Hz. inversion Hi; subst s'. cbn. rewrite Hz. split; lia.
+    + inversion Hi; subst s'. cbn. rewrite firstn_length. split; lia.
+Qed.
+
+(** track_ids_unique *)
+Lemma track_ids_unique : forall cfg ops s,
+  exec cfg (init_state cfg) ops = Some s -> ph s <> Failed ->
+  NoDup (map key (all_tracks s)) /\
+  Forall (fun t => tev t < n_events cfg /\ tid t < nth (tev t) (next_id s) 0 /\
+                   (forall p, tpar t = Some p -> p < tid t)) (all_tracks s).
+Proof. intros cfg ops s H Hph. destruct (reachable_inv cfg ops s H) as [_ HB]. exact (HB Hph). Qed.
+
+(** init_assignment_injective *)
+Lemma init_assignment_injective : forall cfg ops s,
+  exec cfg (init_state cfg) ops = Some s -> ph s = Ready ->
+  let ci := c_init (cnt s) in
+  let cv := c_vac (cnt s) in
+  let num_new := Nat.min cv ci in
+  let indices := if charge_order cfg then partition_initializers (stack s) ci num_new else [] in
+  let ii := iidx (stack s) ci num_new (charge_order cfg) in
+  let vi := vidx (stack s) ci cv num_new (charge_order cfg) in
+  (* what each thread reads and writes *)
+  (forall t, fst (fst (init_thread cfg s indices num_new t)) = nth (vi t) (vac s) 0 /\
+             snd (fst (init_thread cfg s indices num_new t)) = nth (ii t) (stack s) dflt_trk) /\
+  (* both index maps are injective into their windows *)
+  (forall t, t < num_new -> ci - num_new <= ii t < ci /\ vi t < cv) /\
+  (forall t1 t2, t1 < num_new -> t2 < num_new -> ii t1 = ii t2 -> t1 = t2) /\
+  (forall t1 t2, t1 < num_new -> t2 < num_new -> vi t1 = vi t2 -> t1 = t2) /\
+  (* hence distinct threads write distinct, vacant slots *)
+  NoDup (map (fun t => nth (vi t) (vac s) 0) (seq 0 num_new)) /\
+  (forall t, t < num_new -> nth (vi t) (vac s) 0 < n_slots cfg /\
+                            sst (nth (nth (vi t) (vac s) 0) (slots s) dflt_slot) = Inactive).
+Proof.
+  intros cfg ops s H Hph ci cv num_new indices ii vi.
+  pose proof (counters_exact cfg ops s H) as HA.
+  assert (Hcv : num_new <= cv) by (unfold num_new; lia).
+  assert (Hci : num_new <= ci) by (unfold num_new; lia).
+  assert (Hsid : forall t, fst (fst (init_thread cfg s indices num_new t)) = nth (vi t) (vac s) 0).
+  { intros t. unfold init_thread, vi, vidx, iidx, indices. cbn [fst]. destruct (charge_order cfg); reflexivity. }
+  split; [|split; [|split; [|split; [|split]]]].
+  - intros t. split; [apply Hsid|].
+    unfold init_thread, ii, iidx, indices. cbn [fst snd]. destruct (charge_order cfg); reflexivity.
+  - intros t Ht. split; [exact (iidx_range (stack s) ci cv num_new Hci Hcv _ t Ht)|exact (vidx_lt (stack s) ci cv num_new Hci Hcv _ t Ht)].
+  - intros t1 t2 H1 H2. exact (iidx_inj (stack s) ci cv num_new Hci Hcv _ t1 t2 H1 H2).
+  - intros t1 t2 H1 H2. exact (vidx_inj (stack s) ci cv num_new Hci Hcv _ t1 t2 H1 H2).
+  - destruct (init_targets cfg s num_new HA Hph Hcv Hci) as [Hnd _]. cbn zeta in Hnd.
+    rewrite map_map in Hnd. fold indices in Hnd.
+    rewrite (map_ext _ (fun t => nth (vi t) (vac s) 0)) in Hnd; [exact Hnd|]. intros t. unfold wsid. apply Hsid.
+  - intros t Ht. destruct (init_targets cfg s num_new HA Hph Hcv Hci) as [_ Htg]. cbn zeta in Htg. fold indices in Htg.
+    destruct (Htg (init_thread cfg s indices num_new t)) as [A B].
+    { apply in_map. apply in_seq. lia. }
+    unfold wsid in A, B. rewrite Hsid in A, B. destruct HA as ((Hl & _) & _). rewrite Hl in A. split; [exact A|].
+    unfold is_inactive in B. destruct (sst _); try discriminate. reflexivity.
+Qed.
+
+(** scan_ranges_disjoint: arithmetic form *)
+Lemma list_sum_firstn_mono : forall l i j, i <= j -> list_sum (firstn i l) <= list_sum (firstn j l).
+Proof.
+  unfold list_sum. induction l as [|x r IH]; intros i j Hij; [destruct i, j; cbn; lia|].
+  destruct i, j; cbn; try lia. specialize (IH i j ltac:(lia)). lia.
+Qed.
+
+Lemma scan_ranges_disjoint : forall counts i j,
+  i < j -> j < length counts ->
+  let scan := fst (exclusive_scan 0 counts) in
+  let total := snd (exclusive_scan 0 counts) in
+  nth i scan 0 + nth i counts 0 <= nth j scan 0 /\ nth j scan 0 + nth j counts 0 <= total.
+Proof.
+  intros counts i j Hij Hj scan total. unfold scan, total.
+  rewrite !exclusive_scan_nth by lia. rewrite exclusive_scan_total. cbn [Nat.add].
+  rewrite <- !list_sum_firstn_S by lia. split.
+  - apply list_sum_firstn_mono. lia.
+  - apply list_sum_firstn_le.
+Qed.
+
+(** scan_ranges_disjoint: operational form -- after ExtendFromSecondaries the
+    initializer array is the old stack followed by the secondaries pushed by
+    slot 0, 1, ... (each slot wrote exactly its own window, nothing was
+    overwritten, no default entry is left), and ids come from the counters *)
+Lemma secondaries_layout : forall cfg ops s s',
+  exec cfg (init_state cfg) ops = Some s -> extend_from_secondaries cfg s = Ok s' ->
+  let sp := spec_all (charge_order cfg) (slots s) (next_id s) in
+  slots s' = fst (fst sp) /\ stack s' = stack s ++ snd (fst sp) /\ next_id s' = snd sp.
+Proof.
+  intros cfg ops s s' Hex H sp. pose proof (counters_exact cfg ops s Hex) as ((Hl & Hp & Hn) & Hlive & _).
+  unfold extend_from_secondaries in H.
+  destruct (phase_eqb (ph s) Interacted) eqn:Hph; cbn [negb] in H; [|discriminate].
+  apply phase_eqb_eq in Hph. rewrite Hph in Hlive.
+  destruct (Hlive ltac:(discriminate)) as (A & B & C & D).
+  pose proof (exclusive_scan_total (map snd (locate_all (charge_order cfg) 0 (slots s))) 0) as Htot.
+  destruct (exclusive_scan 0 (map snd (locate_all (charge_order cfg) 0 (slots s)))) as [scan total] eqn:Hscan.
+  cbn [snd] in Htot.
+  destruct (capacity cfg <? c_init (cnt s) + total) eqn:Hcap; [discriminate|].
+  pose proof (proc_all_arr (charge_order cfg) (n_slots cfg) (c_init (cnt s) + total) total (stack s) (slots s) 0 0 []
+                (mkP (stack s ++ repeat dflt_trk total) (parents s) (next_id s))
+                ltac:(lia) ltac:(lia) eq_refl) as Harr.
+  cbn zeta in Harr. rewrite Hscan in Harr. cbn [fst p_arr p_nx app] in Harr.
+  rewrite Nat.sub_0_r in Harr. specialize (Harr eq_refl). destruct Harr as (R1 & R2 & R3).
+  destruct (proc_all _ _ _ _ _ _ _ _) as [slots' ps] eqn:Hpa. cbn [fst snd] in *.
+  inversion H; subst s'; clear H. cbn. auto.
+Qed.
+
+(** exactly_once *)
+Lemma exactly_once : forall cfg ops s,
+  exec cfg (init_state cfg) ops = Some s ->
+  (* primaries: one fresh initializer per primary, nothing else changes *)
+  (forall ps s', insert_primaries cfg s ps = Ok s' ->
+     slots s' = slots s /\
+     exists news, stack s' = stack s ++ news /\ length news = length ps /\
+       fresh_batch (n_events cfg) (next_id s) (next_id s') news) /\
+  (* initialisation: tracks are only moved from the stack into vacant slots *)
+  (forall s', initialize_tracks cfg s = Ok s' ->
+     Permutation (all_tracks s') (all_tracks s) /\
+     (forall j, j < n_slots cfg -> sst (nth j (slots s) dflt_slot) <> Inactive ->
+                nth j (slots s') dflt_slot = nth j (slots s) dflt_slot)) /\
+  (* physics does not touch identities *)
+  (forall f s', physics_outcome cfg s f = Ok s' -> all_tracks s' = all_tracks s) /\
+  (* secondaries: alive tracks and queued initializers stay, killed tracks
+     leave, each emitted secondary appears exactly once with a fresh id *)
+  (forall s', extend_from_secondaries cfg s = Ok s' ->
+     exists news,
+       Permutation (all_tracks s') ((survivors (slots s) ++ stack s) ++ news) /\
+       fresh_batch (n_events cfg) (next_id s) (next_id s') news /\
+       (forall j, sst (nth j (slots s) dflt_slot) = Alive -> j < n_slots cfg ->
+                  nth j (slots s') dflt_slot = nth j (slots s) dflt_slot)).
+Proof.
+  intros cfg ops s Hex. destruct (reachable_inv cfg ops s Hex) as [HA HB].
+  pose proof HA as ((Hl & Hp & Hn) & _).
+  split; [|split; [|split]].
+  - intros ps s' H. destruct (insert_primaries_stack cfg s ps s' HA H) as (E1 & E2 & E3 & Hev & _).
+    split; [exact E1|]. exists (fst (issue_primaries ps (next_id s))).
+    split; [exact E2|]. split; [apply issue_primaries_length|].
+    rewrite E3. apply issue_primaries_fresh; assumption.
+  - intros s' H. destruct (initialize_tracks_perm cfg s s' HA H) as (P & _ & U). split; [exact P|].
+    intros j Hj Hst. apply U; [|lia]. unfold is_inactive. destruct (sst _); try reflexivity. contradiction.
+  - intros f s' H. unfold physics_outcome in H. destruct (negb _); [discriminate|]. inversion H; subst s'.
+    unfold all_tracks. proj_simpl. rewrite physics_slots_tracks. reflexivity.
+  - intros s' H. destruct (extend_from_secondaries_tracks cfg s s' HA HB H) as (news & P & F & _ & Hs).
+    exists news. split; [exact P|]. split; [exact F|].
+    intros j Hal Hj. rewrite Hs. clear - Hal Hj Hl.
+    rewrite <- Hl in Hj. clear Hl. revert j Hal Hj. generalize (next_id s) as nx. generalize (slots s) as sls.
+    induction sls as [|sl r IH]; intros nx j Hal Hj; [cbn in Hj; lia|].
+    rewrite spec_all_cons. cbn [fst]. destruct j as [|j'].
+    + cbn [nth] in *. unfold spec_slot. rewrite Hal. cbn [status_eqb].
+      destruct (make_secondaries _ _ _ nx) as [ts nx']. cbn [negb andb]. destruct ts; reflexivity.
+    + cbn [nth] in *. apply IH; [exact Hal|cbn in Hj; lia].
+Qed.
+
+(** capacity_checked_first (shared with C16) *)
+Lemma capacity_checked_first : forall cfg s,
+  (forall ps s', insert_primaries cfg s ps = Err s' ->
+     capacity cfg < length ps + c_init (cnt s) /\ s' = set_ph Failed s) /\
+  (forall ps, ph s = Ready -> forallb (fun p => p_ev p <? n_events cfg) ps = true ->
+     capacity cfg < length ps + c_init (cnt s) -> insert_primaries cfg s ps = Err (set_ph Failed s)) /\
+  (forall s', extend_from_secondaries cfg s = Err s' ->
+     slots s' = slots s /\ stack s' = stack s /\ parents s' = parents s /\ next_id s' = next_id s /\
+     capacity cfg < c_init (cnt s')) /\
+  (forall s', extend_from_secondaries cfg s = Ok s' -> c_init (cnt s') <= capacity cfg).
+Proof.
+  intros cfg s. split; [|split; [|split]].
+  - intros ps s' H. split; [|eapply insert_err_state; eauto].
+    unfold insert_primaries in H. destruct (negb _); [discriminate|]. destruct (negb _); [discriminate|].
+    destruct (capacity cfg <? _) eqn:E; [apply Nat.ltb_lt in E; exact E|].
+    destruct (process_primaries _ _ _ _); discriminate.
+  - apply insert_capacity_checked_first.
+  - intros s' H. unfold extend_from_secondaries in H. destruct (negb _); [discriminate|].
+    destruct (exclusive_scan _ _) as [scan total].
+    destruct (capacity cfg <? _) eqn:E; [|destruct (proc_all _ _ _ _ _ _ _ _); discriminate].
+    inversion H; subst s'. cbn. apply Nat.ltb_lt in E. auto.
+  - intros s' H. unfold extend_from_secondaries in H. destruct (negb _); [discriminate|].
+    destruct (exclusive_scan _ _) as [scan total].
+    destruct (capacity cfg <? _) eqn:E; [discriminate|]. apply Nat.ltb_ge in E.
+    destruct (proc_all _ _ _ _ _ _ _ _). inversion H; subst s'. cbn. exact E.
+Qed.
+
+(** reset_then_run_ok (C16): whatever happened before (including an error),
+    after reset the machine is in a state that satisfies every invariant of
+    the initial state, so all theorems above apply to the continuation *)
+Lemma reset_then_run_ok : forall cfg ops s s1 ops' s2,
+  exec cfg (init_state cfg) ops = Some s ->
+  reset cfg s = Ok s1 ->
+  exec cfg s1 ops' = Some s2 ->
+  (stack s1 = [] /\ vac s1 = seq 0 (n_slots cfg) /\ cnt s1 = cnt (init_state cfg) /\ ph s1 = Ready /\
+   Forall (fun sl => sst sl = Inactive) (slots s1)) /\
+  InvA cfg s2 /\ InvB cfg s2.
+Proof.
+  intros cfg ops s s1 ops' s2 Hex Hr Hex'.
+  destruct (reachable_inv cfg ops s Hex) as [HA HB].
+  pose proof (InvA_reset cfg s s1 HA Hr) as HA1. destruct (InvB_reset cfg s s1 Hr) as [HB1 _].
+  split; [|eapply Inv_exec; eauto].
+  unfold reset in Hr. inversion Hr; subst s1. cbn. repeat split; auto.
+  apply Forall_forall. intros sl Hin. apply in_map_iff in Hin. destruct Hin as [x [Hx _]]. subst. reflexivity.
+Qed.
+
+(** drain_terminates (partial): no deadlock -- whenever initializers are
+    queued and no track is in flight, the next InitializeTracks starts at
+    least one track; and every InitializeTracks pops exactly min(vacancies,
+    queued) initializers.  The well-founded measure argument for the whole
+    loop is not mechanised. *)
+Lemma drain_progress_partial : forall cfg ops s s',
+  exec cfg (init_state cfg) ops = Some s -> 1 <= n_slots cfg ->
+  initialize_tracks cfg s = Ok s' ->
+  length (stack s') = length (stack s) - Nat.min (n_inactive (slots s)) (length (stack s)) /\
+  (n_inactive (slots s) = n_slots cfg -> 0 < length (stack s) ->
+     length (stack s') < length (stack s) /\ n_inactive (slots s') < n_slots cfg).
+Proof.
+  intros cfg ops s s' Hex Hn Hi.
+  pose proof (counters_exact cfg ops s Hex) as HA.
+  pose proof (InvA_initialize cfg s s' HA Hi) as HA'.
+  destruct (step_counters cfg ops s Hex) as (_ & _ & Hcnt). destruct (Hcnt s' Hi) as [Hpop Hact].
+  assert (Hph : ph s = Ready).
+  { unfold initialize_tracks in Hi. destruct (phase_eqb (ph s) Ready) eqn:E; [apply phase_eqb_eq; exact E|discriminate]. }
+  assert (Hph' : ph s' = Inited).
+  { unfold initialize_tracks in Hi. destruct (negb _); [discriminate|]. destruct (_ =? 0); inversion Hi; reflexivity. }
+  destruct HA as (_ & Hlive & _). destruct (Hlive ltac:(rewrite Hph; discriminate)) as (A & B & C & _).
+  destruct HA' as (_ & Hlive' & _). destruct (Hlive' ltac:(rewrite Hph'; discriminate)) as (A' & B' & C' & _).
+  rewrite C, A in Hpop.
+  assert (Hle : length (stack s') <= length (stack s)).
+  { unfold initialize_tracks in Hi. destruct (negb _); [discriminate|]. destruct (_ =? 0); inversion Hi; cbn; [lia|].
+    rewrite firstn_length. lia. }
+  split; [lia|]. intros Hall Hq.
+  assert (Hcv' : c_vac (cnt s') = c_vac (cnt s) - Nat.min (c_vac (cnt s)) (c_init (cnt s))).
+  { unfold initialize_tracks in Hi. destruct (negb _); [discriminate|].
+    destruct (Nat.min (c_vac (cnt s)) (c_init (cnt s)) =? 0) eqn:Hz; inversion Hi; cbn; [|reflexivity].
+    apply Nat.eqb_eq in Hz. lia. }
+  rewrite <- C'. rewrite Hcv', C, A. lia.
+Qed.
